@@ -143,7 +143,7 @@ class Scenario:
         o["pvaerr", "B"] = pd.Series([-1.0, 4.0, 0.5, 0.0, 0.3, -0.1, -0.2, 0.05, -1.0], index=R.SCHEMAS["pva_error"][0])
         o["xerr", "A"], o["xerr", "B"] = 1e-3 * rng.randn(9), 1e-3 * rng.randn(9)
         o["xest", "A"], o["xest", "B"] = 1e-3 * rng.randn(12), 1e-3 * rng.randn(12)
-        o["sdvec", "A"], o["sdvec", "B"] = np.array([0.1, 0.2, 0.3]), np.array([0.01, 0.0, 0.02])
+        o["sdvec", "A"], o["sdvec", "B"] = np.array([0.1, 0.2, 0.3]), np.array([0.01, -1.0, 0.02])     # a non-positive element disables the axis (documented)
         from scipy.spatial.transform import Rotation
         o["rot", "A"] = Rotation.from_euler("xyz", rng.randn(20, 3) * 5, degrees=True)
         o["rot", "B"] = Rotation.from_euler("xyz", rng.randn(20, 3) * 20, degrees=True)
